@@ -10,7 +10,7 @@ identity is the one the transport attached to the message).
 
 The theorems are about one side each; the transport between them (ordered reliable channels
 deliver every message once and in order, unreliable ones at most once) is an assumption about
-the backend, checked for the example backend in C12.  The composition over whole sessions is
+the backend, checked for the example backend in C17.  The composition over whole sessions is
 checked by the C05 oracles on the implementation (exactly once after quiescence, recipients,
 order per receiver and type, sender identity, no event from before the connect) and the
 lock-step comparison of `SrvEv.frame`, `receive` and `CBuf.frame` with the implementation.
